@@ -32,4 +32,5 @@ registry! {
     c09::C09,
     c10::C10,
     c11::C11,
+    c12::C12,
 }
